@@ -71,9 +71,12 @@ type Config struct {
 	OnState func(path []Op)
 	// GoTest renders a failing path as a plain Go test (optional).
 	GoTest func(path []Op) string
+	// NoTwin switches the instance-isolation step off (see Explore).
+	NoTwin bool
 }
 
 type Result struct {
+	Twins                         int // states in which a second instance was driven next to the first
 	States, Transitions, MaxDepth int
 	Exhaustive                    bool
 	Fails, Pruned                 int
@@ -182,7 +185,7 @@ func Explore(r *ev.Run, cfg Config) Result {
 		cfg.OnState(nil)
 	}
 	res.States = 1
-	var transitions, pruned int64
+	var transitions, pruned, twins int64
 
 	slots := make([]*slot, workers)
 	for i := range slots {
@@ -254,6 +257,35 @@ func Explore(r *ev.Run, cfg Config) Result {
 						if fl == nil {
 							fl = safe(func() *Fail { key = md5.Sum([]byte(s.Key())); return nil })
 						}
+						if fl == nil && !cfg.NoTwin {
+							// instance isolation: for a state not seen before, a second, unrelated instance is
+							// brought into the same state and then driven through every operation it offers; the
+							// first instance's fingerprint must not move (state shared between instances - a
+							// package-level buffer, cache or table - shows here)
+							seenMu.Lock()
+							_, old := seen[key]
+							seenMu.Unlock()
+							if !old {
+								fl = safe(func() *Fail {
+									t := cfg.New()
+									for _, p := range full {
+										if f := t.Apply(p); f != nil {
+											return nil
+										}
+									}
+									for _, o := range t.Ops() {
+										if f := safe(func() *Fail { return t.Apply(o) }); f != nil {
+											break
+										}
+									}
+									if md5.Sum([]byte(s.Key())) != key {
+										return Failf("instance-isolation", "operations on a second, unrelated instance changed the state of this one")
+									}
+									return nil
+								})
+								atomic.AddInt64(&twins, 1)
+							}
+						}
 						if fl == nil {
 							fl = safe(s.Observe)
 						}
@@ -315,6 +347,8 @@ func Explore(r *ev.Run, cfg Config) Result {
 	}
 	res.Transitions = int(transitions)
 	res.Pruned = int(pruned)
+	res.Twins = int(twins)
+	r.Add("instance_isolation_states", twins)
 	return res
 }
 
